@@ -24,6 +24,43 @@ def _clauses(kw, items, indent):
     return '%s%s\n%s' % (indent, kw, body)
 
 
+def param_names(text, f):
+    """names of the parameters of fn f (self excluded), in order"""
+    inner = text[f.params_open + 1:f.params_close]
+    parts, depth, cur = [], 0, ''
+    for ch in inner:
+        if ch in '([{<':
+            depth += 1
+        elif ch in ')]}>':
+            depth -= 1
+        if ch == ',' and depth == 0:
+            parts.append(cur); cur = ''
+        else:
+            cur += ch
+    if cur.strip():
+        parts.append(cur)
+    names = []
+    for p_ in parts:
+        head = p_.split(':', 1)[0].strip()
+        head = re.sub(r'^(mut|ref)\s+', '', head)
+        if re.fullmatch(r'&?\s*(\'\w+\s+)?(mut\s+)?self', head):
+            continue
+        names.append(head if re.fullmatch(r'[A-Za-z_]\w*', head) else None)
+    return names
+
+
+PARAMS_SNAPSHOT = None
+
+
+def _snapshot():
+    global PARAMS_SNAPSHOT
+    if PARAMS_SNAPSHOT is None:
+        import json, os
+        pth = os.path.join(os.path.dirname(os.path.dirname(os.path.abspath(__file__))), 'contracts', 'params.json')
+        PARAMS_SNAPSHOT = json.load(open(pth)) if os.path.exists(pth) else {}
+    return PARAMS_SNAPSHOT
+
+
 class FileContracts:
     def __init__(self, relpath, stripped_text):
         self.relpath = relpath
@@ -36,6 +73,7 @@ class FileContracts:
         self.prologue = []
         self.contracted = []      # [(qualname, [clauses], kind)]
         self.assumed = []         # external_body etc: [(qualname, what)]
+        self.renames = {}         # qualname -> {name the contracts were written against: current parameter name}
         self.skipped = []         # optional helper contracts whose function no longer exists
         self.lemmas = []          # proof fns in the epilogue that are obligations: [(name, tags)]
 
@@ -55,6 +93,11 @@ class FileContracts:
             raise LostAnchor('%s: fn %s (within %r) not found' % (self.relpath, name, within))
         return cands[nth]
 
+    def _ren(self, q, text):
+        for a, b in self.renames.get(q, {}).items():
+            text = re.sub(r'\b%s\b' % re.escape(a), b, text)
+        return text
+
     def _qual(self, f, within):
         return '%s::%s%s' % (self.relpath, (within + '::') if within else '', f.name)
 
@@ -68,6 +111,17 @@ class FileContracts:
                 return None
             raise
         q = self._qual(f, within)
+        # contracts name parameters; if a parameter was renamed since the contracts were written, rename in the ghost text
+        snap = _snapshot().get(q)
+        now = param_names(self.text, f)
+        self.actual_params = getattr(self, 'actual_params', {})
+        self.actual_params[q] = now
+        if snap and len(snap) == len(now):
+            mp = dict((a, b) for a, b in zip(snap, now) if a and b and a != b)
+            if mp:
+                self.renames[q] = mp
+                requires = [self._ren(q, x) for x in requires]
+                ensures = [self._ren(q, x) for x in ensures]
         # line indentation of the fn keyword
         ls = self.text.rfind('\n', 0, f.kw) + 1
         indent = re.match(r'\s*', self.text[ls:]).group(0)
@@ -132,7 +186,7 @@ class FileContracts:
                 break
             k += 1
             i += len(anchor)
-        self.ed.insert(i + len(anchor), text, kind, self._qual(f, within))
+        self.ed.insert(i + len(anchor), self._ren(self._qual(f, within), text), kind, self._qual(f, within))
 
     def insert_before(self, name, anchor, text, within=None, nth=0, occ=0, kind='proof'):
         f = self.fn(name, within, nth)
@@ -147,7 +201,7 @@ class FileContracts:
                 break
             k += 1
             i += len(anchor)
-        self.ed.insert(i, text, kind, self._qual(f, within))
+        self.ed.insert(i, self._ren(self._qual(f, within), text), kind, self._qual(f, within))
 
     def attr_before_item(self, anchor, attr, occ=0):
         """insert an attribute line before the line containing the occ-th code occurrence of `anchor` (file level)."""
@@ -222,7 +276,7 @@ def _body_prefix(self, name, text, within=None, nth=0):
     f = self.fn(name, within, nth)
     if f.body_open < 0:
         raise LostAnchor('%s: fn %s has no body' % (self.relpath, name))
-    self.ed.insert(f.body_open + 1, '\n' + text, 'proof', self._qual(f, within))
+    self.ed.insert(f.body_open + 1, '\n' + self._ren(self._qual(f, within), text), 'proof', self._qual(f, within))
 
 
 FileContracts.body_prefix = _body_prefix
@@ -234,3 +288,43 @@ def _lemma(self, name, tags):
 
 
 FileContracts.lemma = _lemma
+
+
+def _replace_in_re(self, name, pattern, template, within=None, nth=0, occ=0, kind='closure'):
+    """like replace_in, but the anchor is a regular expression (so that a renamed closure parameter does not lose it);
+    `template` may refer to groups (\\1 ..).  Only matches that start in code (not comments / strings) count."""
+    f = self.fn(name, within, nth)
+    lo, hi = (f.body_open, f.body_close) if f.body_open >= 0 else (f.kw, f.body_close)
+    ms = [m for m in re.finditer(pattern, self.text[lo:hi]) if self.mask[lo + m.start()]]
+    if not ms:
+        raise LostAnchor('%s: pattern %r not found in fn %s' % (self.relpath, pattern, name))
+    if occ == 'all':
+        sel = ms
+    else:
+        if occ >= len(ms):
+            raise LostAnchor('%s: occurrence %d of pattern %r not found in fn %s' % (self.relpath, occ, pattern, name))
+        sel = [ms[occ]]
+    for m in sel:
+        self.ed.replace(lo + m.start(), lo + m.end(), m.expand(template), kind, self._qual(f, within))
+    return [m.groups() for m in sel]
+
+
+def _wrap_closure_block_re(self, name, pattern, template, within=None, nth=0, occ=0):
+    """regex version of wrap_closure_block: pattern must end with the '{' opening the closure's body expression block"""
+    from rsrc import match_bracket
+    f = self.fn(name, within, nth)
+    lo, hi = f.body_open, f.body_close
+    ms = [m for m in re.finditer(pattern, self.text[lo:hi]) if self.mask[lo + m.start()]]
+    if len(ms) <= occ:
+        raise LostAnchor('%s: closure pattern %r (occ %d) not found in fn %s' % (self.relpath, pattern, occ, name))
+    m = ms[occ]
+    ob = lo + m.end() - 1
+    if self.text[ob] != '{':
+        raise LostAnchor('closure pattern must end with {')
+    cb = match_bracket(self.text, self.mask, ob)
+    self.ed.replace(lo + m.start(), lo + m.end(), m.expand(template), 'closure', self._qual(f, within))
+    self.ed.insert(cb + 1, ' }', 'closure', self._qual(f, within))
+
+
+FileContracts.replace_in_re = _replace_in_re
+FileContracts.wrap_closure_block_re = _wrap_closure_block_re
